@@ -5,6 +5,7 @@ import (
 	"fmt"
 	"io"
 	"runtime"
+	"time"
 
 	"verif/internal/gen"
 	"verif/internal/mon"
@@ -22,7 +23,7 @@ func init() { register(c07{}) }
 func (c07) ID() string    { return "C07" }
 func (c07) Level() string { return "exploration" }
 func (c07) Rule() string {
-	return "frames (valid ones of all types from the library and the reference encoder, short forms, content-malformed ones, type 0) x delivery schedules allowed by io.Reader: ALL compositions of the frame length into chunk sizes for frames up to 10 bytes (14 in the thorough tier), and for longer frames all two-chunk splits (<=2 KiB), one byte at a time, random compositions, splits at every field boundary +-1, two frames pipelined in one stream (boundary inside one Read), a peer that pauses (runs of 99..1000 consecutive (0,nil) reads before the frame, inside the header and inside the body), and a re-entrant reader that reads whole packets from a second stream inside its Read; each schedule also with (0,nil) reads interleaved and with the final chunk delivered as (n, io.EOF). Oracle: differential against the same frame read from a contiguous reader (same accessor snapshot, or rejection in both). distinct = (frame digest, schedule); non-trivial = the schedule splits the frame or adds zero-length reads"
+	return "frames (valid ones of all types from the library and the reference encoder, short forms, content-malformed ones, type 0) x delivery schedules allowed by io.Reader: ALL compositions of the frame length into chunk sizes for frames up to 10 bytes (14 in the thorough tier), and for longer frames all two-chunk splits (<=2 KiB), one byte at a time, random compositions, splits at every field boundary +-1, two frames pipelined in one stream (boundary inside one Read), a peer that pauses (runs of 99..1000 consecutive (0,nil) reads before the frame, inside the header and inside the body), a slow link (real pauses of 1, 3, 6 and 11 s inside a frame, up to 121 s in the thorough tier; the pause is stimulus, verdicts compare packets only), and a re-entrant reader that reads whole packets from a second stream inside its Read; each schedule also with (0,nil) reads interleaved and with the final chunk delivered as (n, io.EOF). Oracle: differential against the same frame read from a contiguous reader (same accessor snapshot, or rejection in both). distinct = (frame digest, schedule); non-trivial = the schedule splits the frame or adds zero-length reads"
 }
 func (c07) Assumptions() []string {
 	return []string{"schedules never violate the io.Reader contract (at most len(p) bytes, buffer not retained, (0,nil) only finitely often)", "error texts are not compared, only acceptance and accessor values"}
@@ -37,10 +38,14 @@ func (c07) Exhaustive(env run.Env) (bool, string) {
 
 func (c07) Phases(env run.Env) []run.Phase {
 	if env.Thorough {
-		return []run.Phase{{Name: "short-frames-all-compositions", N: 8000}, {Name: "long-frames", N: 250000}}
+		return []run.Phase{{Name: "short-frames-all-compositions", N: 8000}, {Name: "long-frames", N: 250000}, {Name: "slow-links", N: 24}}
 	}
-	return []run.Phase{{Name: "short-frames-all-compositions", N: 160}, {Name: "long-frames", N: 2500}}
+	return []run.Phase{{Name: "short-frames-all-compositions", N: 160}, {Name: "long-frames", N: 2500}, {Name: "slow-links", N: 4}}
 }
+
+// c07Pauses are real waits inside one frame (seconds): just above the round
+// numbers a time limit would be set to.
+var c07Pauses = []int{1, 3, 6, 11, 16, 21, 31, 46, 61, 91, 121, 2}
 
 // shortFrame draws a frame of at most max bytes.
 func shortFrame(r *gen.RNG, max int) wireFrame {
@@ -138,6 +143,38 @@ func c07Variants(c *run.Ctx, r *gen.RNG, f wireFrame, iso isolated, steps []mon.
 func (c07) Run(c *run.Ctx, phase, idx int) {
 	r := rng(c.Env, "C07", phase, idx)
 	switch phase {
+	case 2:
+		// a slow link: part of the frame, a real pause, the rest. The result
+		// must not depend on how long the bytes took (the pause is stimulus;
+		// the verdict compares packets, never durations)
+		f := genFrame(r, gen.Small)
+		for len(f.Bytes) < 12 {
+			f = genFrame(r, gen.Small)
+		}
+		iso := readIsolated(f.Bytes)
+		if iso.Panicked {
+			return
+		}
+		n := len(f.Bytes)
+		// inside the header, before the last byte, after the header of a short frame, inside the body
+		at := []int{1, n - 1, 2, n / 2}[(idx%4+2*(idx/len(c07Pauses)))%4]
+		if at >= n {
+			at = n - 1
+		}
+		secs := c07Pauses[idx%len(c07Pauses)]
+		rd := &mon.SlowReader{Data: f.Bytes, PauseAt: at, Pause: time.Duration(secs)*time.Second + 300*time.Millisecond, Tick: c.Tick, Chunk: 1}
+		c.Current(func() string {
+			return fmt.Sprintf("ReadPacket frame=%s slow link: %d bytes, %d s pause, %d bytes", hexClip(f.Bytes, 512), at, secs, n-at)
+		})
+		res := mon.Read(rd)
+		c.Eval(1)
+		name := fmt.Sprintf("slow-link-%ds", secs)
+		c.Distinct(run.HashBytes(run.Hash64(name, itoa(at)), f.Bytes), true)
+		c.Count("schedules", name, 1)
+		if ok, why := sameOutcome(iso, res); !ok {
+			c.Violation("C07/slow-link/"+f.Kind+"/"+acceptWord(iso.Accepted), fmt.Sprintf("%s frame of %d bytes delivered as %d bytes, a pause of %d s, then the remaining %d bytes: %s", tname(f.Type), n, at, secs, n-at, why),
+				map[string]interface{}{"frame": hexClip(f.Bytes, 2048), "bytes_before_pause": at, "pause_seconds": secs, "kind": f.Kind})
+		}
 	case 0:
 		max := 10
 		if c.Thorough {
@@ -192,9 +229,15 @@ func (c07) Run(c *run.Ctx, phase, idx int) {
 				two(k, "two-chunks")
 			}
 		}
-		for _, s := range f.FM {
+		// every field boundary +-1 (an evenly spread sample of 400 when a
+		// list makes the frame have thousands of fields)
+		stride := 1
+		if len(f.FM) > 400 {
+			stride = len(f.FM)/400 + 1
+		}
+		for i := 0; i < len(f.FM); i += stride {
 			for d := -1; d <= 1; d++ {
-				two(s.Off+d, "field-boundary")
+				two(f.FM[i].Off+d, "field-boundary")
 			}
 		}
 		if n <= 70000 {
